@@ -2,7 +2,7 @@
 #include "harness.hpp"
 void prop_c01(hz::Ctx &);
 void prop_c02(hz::Ctx &);
-void prop_c03_encoding(hz::Ctx &);
+void prop_c03(hz::Ctx &);
 void prop_c04(hz::Ctx &);
 void prop_c05(hz::Ctx &);
 int replay_line(const std::string &prop, const std::string &caseid);
